@@ -17,9 +17,10 @@ theorem Armed.erase {σ σ' : St} (h : Armed σ) (id : Nat)
 
 theorem Base.erase {σ σ' : St} (h : Base σ) (id : Nat) (hpend : σ'.pending = eraseId id σ.pending)
     (htsf : σ'.tsf = σ.tsf) (hltr : σ'.ltr = σ.ltr) (hrem : σ'.remaining = σ.remaining)
-    (herr : σ'.err = σ.err) (hlog : σ'.log = σ.log) : Base σ' := by
+    (herr : σ'.err = σ.err) (hlog : σ'.log = σ.log) (hcfg : σ'.reschedBug = σ.reschedBug) : Base σ' := by
   constructor
   · rw [herr]; exact h.noErr
+  · rw [hcfg]; exact h.cfg
   · rw [htsf]; exact h.normT
   · rw [hltr]; exact h.normL
   · rw [hpend]; intro x hx; exact h.normP x (mem_of_mem_eraseId hx)
@@ -39,7 +40,7 @@ theorem lag_step_d1 {σ : St} (h : LagInv σ) (id : Nat) (hpc : σ.pc = .d1 id) 
         pc := .dEnd id } := by
       unfold step; simp [hpc, hpd]
     rw [hstep]
-    refine ⟨⟨h.base.noErr, h.base.normT, h.base.normL, h.base.normP, h.base.sorted, h.base.remNonneg, h.base.fired⟩, ?_⟩
+    refine ⟨⟨h.base.noErr, h.base.cfg, h.base.normT, h.base.normL, h.base.normP, h.base.sorted, h.base.remNonneg, h.base.fired⟩, ?_⟩
     refine (pcInv_of (pc := .dEnd id) rfl).mpr ?_
     simp only [PcInvAt]
     refine ⟨trivial, ?_⟩
@@ -59,7 +60,7 @@ theorem lag_step_d1 {σ : St} (h : LagInv σ) (id : Nat) (hpc : σ.pc = .d1 id) 
     have eraseCase : ∀ (hd : ∃ x r, eraseId id σ.pending = x :: r ∧ x.deadline.toUs = σ.tsf.toUs + σ.ltr.toUs),
         LagInv { σ with inCrit := true, pending := eraseId id σ.pending, pc := .dEnd id } := by
       intro hd
-      refine ⟨h.base.erase id rfl rfl rfl rfl rfl rfl, ?_⟩
+      refine ⟨h.base.erase id rfl rfl rfl rfl rfl rfl rfl, ?_⟩
       refine (pcInv_of (pc := .dEnd id) rfl).mpr ?_
       simp only [PcInvAt]
       exact ⟨trivial, Or.inl (Armed.erase ⟨a1, a2, a3, ⟨e0, r0, hp0, hhead0⟩, a5⟩ id rfl hd rfl rfl rfl rfl rfl)⟩
@@ -71,7 +72,7 @@ theorem lag_step_d1 {σ : St} (h : LagInv σ) (id : Nat) (hpc : σ.pc = .d1 id) 
         pc := .s1 id } := by
           unfold step; simp [hpc, hpd, heid, hrest]
         rw [hstep]
-        refine ⟨⟨h.base.noErr, h.base.normT, h.base.normL, h.base.normP, h.base.sorted, h.base.remNonneg, h.base.fired⟩, ?_⟩
+        refine ⟨⟨h.base.noErr, h.base.cfg, h.base.normT, h.base.normL, h.base.normP, h.base.sorted, h.base.remNonneg, h.base.fired⟩, ?_⟩
         refine (pcInv_of (pc := .s1 id) rfl).mpr ?_
         simp only [PcInvAt]
         exact ⟨trivial, ⟨a1, a2, a3, ⟨e0, r0, hp0, hhead0⟩, a5⟩, e0, by rw [hpd, hrest], heid⟩
@@ -102,7 +103,7 @@ theorem lag_step_d1 {σ : St} (h : LagInv σ) (id : Nat) (hpc : σ.pc = .d1 id) 
         pc := .r1 id e0.deadline n.deadline } := by
             unfold step; simp [hpc, hpd, heid, hrest, hne]
           rw [hstep]
-          refine ⟨⟨h.base.noErr, h.base.normT, h.base.normL, h.base.normP, h.base.sorted, h.base.remNonneg, h.base.fired⟩, ?_⟩
+          refine ⟨⟨h.base.noErr, h.base.cfg, h.base.normT, h.base.normL, h.base.normP, h.base.sorted, h.base.remNonneg, h.base.fired⟩, ?_⟩
           refine (pcInv_of (pc := .r1 id e0.deadline n.deadline) rfl).mpr ?_
           simp only [PcInvAt]
           exact ⟨trivial, ⟨a1, a2, a3, ⟨e0, r0, hp0, hhead0⟩, a5⟩, e0, n, r', by rw [hpd, hrest], heid, rfl, rfl, by omega⟩
@@ -126,7 +127,7 @@ theorem lag_step_r1 {σ : St} (h : LagInv σ) (id : Nat) (f n : Time) (hpc : σ.
   rw [hstep]
   have ttsN : (getTimer σ).Norm := Time.mk2_timer_norm h.base.remNonneg
   have ttsU : (getTimer σ).toUs = σ.remaining := Time.mk2_timer_toUs h.base.remNonneg
-  refine ⟨⟨h.base.noErr, h.base.normT, h.base.normL, h.base.normP, h.base.sorted, h.base.remNonneg,
+  refine ⟨⟨h.base.noErr, h.base.cfg, h.base.normT, h.base.normL, h.base.normP, h.base.sorted, h.base.remNonneg,
     base_fired_cons (by intros; simp) h.base.fired⟩, ?_⟩
   refine (pcInv_of (pc := .r2 id f n (getTimer σ)) rfl).mpr ?_
   simp only [PcInvAt]
@@ -165,7 +166,7 @@ theorem lag_step_r2 {σ : St} (h : LagInv σ) (id : Nat) (f n tts : Time) (hpc :
         pc := .r3 id } := by
     unfold step; simp [hpc, hnz]
   rw [hstep]
-  refine ⟨⟨h.base.noErr, curN, rN, h.base.normP, h.base.sorted, h.base.remNonneg, h.base.fired⟩, ?_⟩
+  refine ⟨⟨h.base.noErr, h.base.cfg, curN, rN, h.base.normP, h.base.sorted, h.base.remNonneg, h.base.fired⟩, ?_⟩
   refine (pcInv_of (pc := .r3 id) rfl).mpr ?_
   simp only [PcInvAt]
   refine ⟨h1, e0, n' :: rest, hpd, heid, a1, rfl, ?_, ⟨n', rest, rfl, ?_⟩, ?_⟩
@@ -192,7 +193,7 @@ theorem lag_step_r3 {σ : St} (h : LagInv σ) (id : Nat) (hpc : σ.pc = .r3 id) 
         pc := .dEnd id } := by
     unfold step; simp [hpc, hok']
   rw [hstep]
-  refine ⟨⟨h.base.noErr, h.base.normT, h.base.normL, ?_, ?_, ?_,
+  refine ⟨⟨h.base.noErr, h.base.cfg, h.base.normT, h.base.normL, ?_, ?_, ?_,
     base_fired_cons (by intros; simp) h.base.fired⟩, ?_⟩
   · intro x hx; exact h.base.normP x (mem_of_mem_eraseId hx)
   · exact sorted_eraseId h.base.sorted
@@ -201,8 +202,8 @@ theorem lag_step_r3 {σ : St} (h : LagInv σ) (id : Nat) (hpc : σ.pc = .r3 id) 
   · refine (pcInv_of (pc := .dEnd id) rfl).mpr ?_
     simp only [PcInvAt]
     refine ⟨h1, Or.inl ⟨p1, ?_, ?_, ?_, ?_⟩⟩
-    · show 0 < σ.sigOnce.toUs
-      rw [p2]; exact p3
+    · show 0 ≤ σ.sigOnce.toUs
+      rw [p2]; exact Int.le_of_lt p3
     · show σ.sigOnce.toUs ≤ σ.ltr.toUs
       rw [p2]; exact Int.le_refl _
     · show ∃ x r, eraseId id σ.pending = x :: r ∧ _
@@ -224,7 +225,7 @@ theorem lag_step_s1 {σ : St} (h : LagInv σ) (id : Nat) (hpc : σ.pc = .s1 id) 
         pc := .s2 id } := by
     unfold step; simp [hpc]
   rw [hstep]
-  refine ⟨⟨h.base.noErr, h.base.normT, h.base.normL, h.base.normP, h.base.sorted, h.base.remNonneg, h.base.fired⟩, ?_⟩
+  refine ⟨⟨h.base.noErr, h.base.cfg, h.base.normT, h.base.normL, h.base.normP, h.base.sorted, h.base.remNonneg, h.base.fired⟩, ?_⟩
   refine (pcInv_of (pc := .s2 id) rfl).mpr ?_
   simp only [PcInvAt]
   exact ⟨h1, ha, h3, trivial⟩
@@ -245,7 +246,7 @@ theorem lag_step_s2 {σ : St} (h : LagInv σ) (id : Nat) (hpc : σ.pc = .s2 id) 
     unfold step; simp [hpc, hok']
   rw [hstep]
   have hz : σ.sigOnce.toUs = 0 := by rw [h4]; exact Time.toUs_zero
-  refine ⟨⟨h.base.noErr, h.base.normT, h.base.normL, ?_, ?_, ?_,
+  refine ⟨⟨h.base.noErr, h.base.cfg, h.base.normT, h.base.normL, ?_, ?_, ?_,
     base_fired_cons (by intros; simp) h.base.fired⟩, ?_⟩
   · intro x hx; exact h.base.normP x (mem_of_mem_eraseId hx)
   · exact sorted_eraseId h.base.sorted
@@ -259,17 +260,216 @@ theorem lag_step_dEnd {σ : St} (h : LagInv σ) (id : Nat) (hpc : σ.pc = .dEnd 
     LagInv (step false σ) := by
   have hp := (pcInv_of hpc).mp h.pcInv
   simp only [PcInvAt] at hp
-  have hstep : step false σ = { σ with
-        inCrit := false
-        log := .destroyed id σ.now :: σ.log
-        pc := .idle } := by
+  have hstep : step false σ = leave σ (.dtor id) := by
     unfold step; simp [hpc]
   rw [hstep]
-  refine ⟨⟨h.base.noErr, h.base.normT, h.base.normL, h.base.normP, h.base.sorted, h.base.remNonneg,
+  exact lag_leave h.base hp.2 _
+
+/-- the body of `handle_timeout` run at an instant at which the timer has expired (`remaining = 0`)
+outside a critical section — from the signal handler (`sync = none`) or from
+`leave_critical_section`: no action runs early, and the timer is (about to be) re-armed for the
+next deadline -/
+theorem lag_body (τ : St) (hb : Base τ) (ha : Armed τ) (hR : τ.remaining = 0) (sync : Option Fin) :
+    Base (handlerBody false sync τ) ∧ (handlerBody false sync τ).inCrit = τ.inCrit ∧
+    (((handlerBody false sync τ).pc = τ.pc ∧ Stable (handlerBody false sync τ)) ∨
+     (∃ fin, sync = some fin ∧ (handlerBody false sync τ).pc = .l4 fin ∧
+        (handlerBody false sync τ).remaining = 0 ∧
+        PreArmed (handlerBody false sync τ) (handlerBody false sync τ).pending)) := by
+  obtain ⟨a1, a2, a3, ⟨e, r, hp, hhead⟩, a5⟩ := ha
+  have hnT' : (τ.tsf.add τ.ltr).Norm := Time.add_norm hb.normT hb.normL
+  have hT' : (τ.tsf.add τ.ltr).toUs = τ.tsf.toUs + τ.ltr.toUs := Time.add_toUs hb.normT hb.normL
+  have hnormP : AllNorm (e :: r) := hp ▸ hb.normP
+  have hrestSub : (takeDue false (τ.tsf.add τ.ltr) r).2.Sublist τ.pending := by
+    rw [hp]; exact (takeDue_sublist_snd _ _ _).trans (List.sublist_cons_self e r)
+  have hdue : ∀ x ∈ e :: (takeDue false (τ.tsf.add τ.ltr) r).1,
+      x ∈ τ.pending ∧ x.deadline.toUs ≤ τ.tsf.toUs + τ.ltr.toUs := by
+    intro x hx
+    rcases List.mem_cons.mp hx with hh | hh
+    · subst hh; exact ⟨by rw [hp]; simp, by omega⟩
+    · have hxr : x ∈ r := (takeDue_sublist_fst _ _ _).subset hh
+      have h1 := (Time.le_false_iff (hnormP x (List.mem_cons_of_mem _ hxr)) hnT').mp (takeDue_due _ _ _ x hh)
+      exact ⟨by rw [hp]; exact List.mem_cons_of_mem _ hxr, by omega⟩
+  have hfired : ∀ id t b cs, Event.fired id t b cs ∈
+      (firedEvents τ.now (e :: (takeDue false (τ.tsf.add τ.ltr) r).1)).reverse ++ τ.log →
+      b + cs * 10000 ≤ t := by
+    intro id t b cs hh
+    rcases mem_fired_block.mp hh with ⟨x, hx, _, e2, e3, e4⟩ | hh
+    · obtain ⟨hxm, hxd⟩ := hdue x hx
+      have := a5 x hxm
+      subst e3 e4
+      omega
+    · exact hb.fired id t b cs hh
+  unfold handlerBody
+  simp only [hp]
+  split
+  · rename_i hrest
+    refine ⟨⟨hb.noErr, hb.cfg, hnT', hb.normL, ?_, ?_, hb.remNonneg, hfired⟩, rfl, Or.inl ⟨rfl, Or.inr ⟨rfl, hR, hrest⟩⟩⟩
+    · show AllNorm (takeDue false (τ.tsf.add τ.ltr) r).2
+      rw [hrest]; intro x hx; simp at hx
+    · show Sorted (takeDue false (τ.tsf.add τ.ltr) r).2
+      rw [hrest]; simp [Sorted]
+  · rename_i n rest' hrest
+    have hnrest : n ∈ (takeDue false (τ.tsf.add τ.ltr) r).2 := by rw [hrest]; simp
+    have hnmem : n ∈ τ.pending := hrestSub.subset hnrest
+    have hnn : n.deadline.Norm := hb.normP n hnmem
+    have hgt : τ.tsf.toUs + τ.ltr.toUs < n.deadline.toUs := by
+      have h1 := takeDue_rest_head false (τ.tsf.add τ.ltr) r n rest' hrest
+      have h2 := Time.le_false_iff hnn hnT'
+      cases hle : Time.le false n.deadline (τ.tsf.add τ.ltr)
+      · have : ¬ (n.deadline.toUs ≤ (τ.tsf.add τ.ltr).toUs) := fun hh => by
+          have := h2.mpr hh; rw [hle] at this; exact absurd this (by simp)
+        omega
+      · rw [hle] at h1; exact absurd h1 (by simp)
+    have hsubN : (n.deadline.sub (τ.tsf.add τ.ltr)).Norm := Time.sub_norm hnn hnT'
+    have hsubU : (n.deadline.sub (τ.tsf.add τ.ltr)).toUs = n.deadline.toUs - (τ.tsf.toUs + τ.ltr.toUs) := by
+      rw [Time.sub_toUs_ge hnn hnT' (by omega), hT']
+    have hnz : (n.deadline.sub (τ.tsf.add τ.ltr)).isZero = false := by
+      cases hz : (n.deadline.sub (τ.tsf.add τ.ltr)).isZero
+      · rfl
+      · have := (Time.isZero_iff hsubN).mp hz; omega
+    have hok := Time.timevalOK_of_norm hsubN
+    have hnormRest : AllNorm (takeDue false (τ.tsf.add τ.ltr) r).2 :=
+      fun x hx => hb.normP x (hrestSub.subset hx)
+    have hsortRest : Sorted (takeDue false (τ.tsf.add τ.ltr) r).2 :=
+      List.Pairwise.sublist hrestSub hb.sorted
+    have hbirthRest : ∀ x ∈ (takeDue false (τ.tsf.add τ.ltr) r).2,
+        x.gBirth + x.gCs * 10000 + (τ.tsf.toUs + τ.ltr.toUs) ≤ x.deadline.toUs + τ.now := by
+      intro x hx
+      have := a5 x (hrestSub.subset hx)
+      omega
+    cases sync with
+    | none =>
+      simp only
+      unfold setTimerH
+      simp only [hnz, Bool.false_eq_true, if_false, hok, if_true]
+      refine ⟨⟨hb.noErr, hb.cfg, hnT', hsubN, hnormRest, hsortRest, ?_, base_fired_cons (by intros; simp) hfired⟩,
+        trivial, Or.inl ⟨trivial, Or.inl ⟨a1, ?_, Int.le_refl _, ⟨n, rest', hrest, ?_⟩, ?_⟩⟩⟩
+      · show 0 ≤ (n.deadline.sub (τ.tsf.add τ.ltr)).toUs
+        omega
+      · show 0 ≤ (n.deadline.sub (τ.tsf.add τ.ltr)).toUs
+        omega
+      · show n.deadline.toUs = (τ.tsf.add τ.ltr).toUs + (n.deadline.sub (τ.tsf.add τ.ltr)).toUs
+        omega
+      · intro x hx
+        have := hbirthRest x hx
+        show x.gBirth + x.gCs * 10000 + ((τ.tsf.add τ.ltr).toUs + (n.deadline.sub (τ.tsf.add τ.ltr)).toUs
+          - (n.deadline.sub (τ.tsf.add τ.ltr)).toUs) ≤ x.deadline.toUs + τ.now
+        omega
+    | some fin =>
+      simp only [hnz, Bool.false_eq_true, if_false]
+      refine ⟨⟨hb.noErr, hb.cfg, hnT', hsubN, hnormRest, hsortRest, hb.remNonneg, hfired⟩,
+        trivial, Or.inr ⟨fin, rfl, rfl, hR, a1, rfl, ?_, ⟨n, rest', hrest, ?_⟩, ?_⟩⟩
+      · show 0 < (n.deadline.sub (τ.tsf.add τ.ltr)).toUs
+        omega
+      · show n.deadline.toUs = (τ.tsf.add τ.ltr).toUs + (n.deadline.sub (τ.tsf.add τ.ltr)).toUs
+        omega
+      · intro x hx
+        have := hbirthRest x hx
+        show x.gBirth + x.gCs * 10000 + (τ.tsf.add τ.ltr).toUs ≤ x.deadline.toUs + τ.now
+        omega
+
+/-- the same body when the clock is stopped (a stale `timeout_deferred`): it only clears
+`alarm_clock_running` again -/
+theorem lag_body_stopped (τ : St) (hb : Base τ) (hs : Stopped τ) (sync : Option Fin) :
+    Base (handlerBody false sync τ) ∧ (handlerBody false sync τ).inCrit = τ.inCrit ∧
+    (handlerBody false sync τ).pc = τ.pc ∧ Stable (handlerBody false sync τ) := by
+  obtain ⟨s1, s2, s3⟩ := hs
+  unfold handlerBody
+  simp only
+  split
+  · exact ⟨⟨hb.noErr, hb.cfg, Time.add_norm hb.normT hb.normL, hb.normL, hb.normP,
+      hb.sorted, hb.remNonneg, hb.fired⟩, rfl, rfl, Or.inr ⟨rfl, s2, s3⟩⟩
+  · rename_i e r hp
+    rw [s3] at hp; exact absurd hp (by simp)
+
+theorem lag_step_l2 {σ : St} (h : LagInv σ) (fin : Fin) (hpc : σ.pc = .l2 fin) :
+    LagInv (step false σ) := by
+  have hp := (pcInv_of hpc).mp h.pcInv
+  simp only [PcInvAt] at hp
+  have hstep : step false σ = { σ with
+        log := .getitimer σ.remaining :: σ.log
+        pc := .l3 fin (getTimer σ) } := by
+    unfold step; simp [hpc]
+  rw [hstep]
+  have ttsN : (getTimer σ).Norm := Time.mk2_timer_norm h.base.remNonneg
+  have ttsU : (getTimer σ).toUs = σ.remaining := Time.mk2_timer_toUs h.base.remNonneg
+  refine ⟨⟨h.base.noErr, h.base.cfg, h.base.normT, h.base.normL, h.base.normP, h.base.sorted, h.base.remNonneg,
     base_fired_cons (by intros; simp) h.base.fired⟩, ?_⟩
-  refine (pcInv_of (pc := .idle) rfl).mpr ?_
+  refine (pcInv_of (pc := .l3 fin (getTimer σ)) rfl).mpr ?_
   simp only [PcInvAt]
-  exact ⟨trivial, hp.2⟩
+  refine ⟨hp.1, ?_, fun hz => ?_⟩
+  · rcases hp.2 with ha | hs
+    · exact Or.inl ha
+    · exact Or.inr hs
+  · have := (Time.isZero_iff ttsN).mp hz
+    show σ.remaining = 0
+    omega
+
+theorem lag_step_l3 {σ : St} (h : LagInv σ) (fin : Fin) (tts : Time) (hpc : σ.pc = .l3 fin tts) :
+    LagInv (step false σ) := by
+  have hp := (pcInv_of hpc).mp h.pcInv
+  simp only [PcInvAt] at hp
+  obtain ⟨hc, hst, hz⟩ := hp
+  cases hzz : tts.isZero
+  · have hstep : step false σ = finish σ fin := by unfold step; simp [hpc, hzz]
+    rw [hstep]; exact lag_finish h.base hc hst fin
+  · have hR := hz hzz
+    have hstep : step false σ =
+        if (handlerBody false (some fin) σ).pc = σ.pc then finish (handlerBody false (some fin) σ) fin
+        else handlerBody false (some fin) σ := by
+      unfold step; simp [hpc, hzz]
+    rw [hstep]
+    rcases hst with ha | hs
+    · obtain ⟨b1, b2, b3⟩ := lag_body σ h.base ha hR (some fin)
+      rcases b3 with ⟨q1, q2⟩ | ⟨f, hf, q1, q2, q3⟩
+      · simp only [q1, if_true]
+        exact lag_finish b1 (b2.trans hc) q2 fin
+      · have hne : (handlerBody false (some fin) σ).pc ≠ σ.pc := by rw [q1, hpc]; simp
+        simp only [hne, if_false]
+        refine ⟨b1, ?_⟩
+        injection hf with hf
+        subst hf
+        refine (pcInv_of q1).mpr ?_
+        simp only [PcInvAt]
+        exact ⟨b2.trans hc, q2, q3⟩
+    · obtain ⟨b1, b2, b3, b4⟩ := lag_body_stopped σ h.base hs (some fin)
+      simp only [b3, if_true]
+      exact lag_finish b1 (b2.trans hc) b4 fin
+
+theorem lag_step_l4 {σ : St} (h : LagInv σ) (fin : Fin) (hpc : σ.pc = .l4 fin) :
+    LagInv (step false σ) := by
+  have hp := (pcInv_of hpc).mp h.pcInv
+  simp only [PcInvAt] at hp
+  obtain ⟨hc, hR, p1, p2, p3, p4, p5⟩ := hp
+  have hok' : σ.sigOnce.timevalOK = true := by rw [p2]; exact Time.timevalOK_of_norm h.base.normL
+  have hstep : step false σ = { σ with
+        remaining := σ.sigOnce.toUs
+        log := .setitimer σ.sigOnce.toUs :: σ.log
+        pc := .l5 fin } := by
+    unfold step; simp [hpc, hok']
+  rw [hstep]
+  refine ⟨⟨h.base.noErr, h.base.cfg, h.base.normT, h.base.normL, h.base.normP, h.base.sorted, ?_,
+    base_fired_cons (by intros; simp) h.base.fired⟩, ?_⟩
+  · show 0 ≤ σ.sigOnce.toUs
+    rw [p2]; omega
+  · refine (pcInv_of (pc := .l5 fin) rfl).mpr ?_
+    simp only [PcInvAt]
+    refine ⟨hc, Or.inl ⟨p1, ?_, ?_, p4, ?_⟩⟩
+    · show 0 ≤ σ.sigOnce.toUs
+      rw [p2]; exact Int.le_of_lt p3
+    · show σ.sigOnce.toUs ≤ σ.ltr.toUs
+      rw [p2]; exact Int.le_refl _
+    · intro e he
+      have := p5 e he
+      show e.gBirth + e.gCs * 10000 + (σ.tsf.toUs + σ.ltr.toUs - σ.sigOnce.toUs) ≤ e.deadline.toUs + σ.now
+      rw [p2]; omega
+
+theorem lag_step_l5 {σ : St} (h : LagInv σ) (fin : Fin) (hpc : σ.pc = .l5 fin) :
+    LagInv (step false σ) := by
+  have hp := (pcInv_of hpc).mp h.pcInv
+  simp only [PcInvAt] at hp
+  have hstep : step false σ = finish σ fin := by unfold step; simp [hpc]
+  rw [hstep]; exact lag_finish h.base hp.1 hp.2 fin
 
 theorem lag_step {σ : St} (h : LagInv σ) : LagInv (step false σ) := by
   cases hpc : σ.pc with
@@ -289,5 +489,9 @@ theorem lag_step {σ : St} (h : LagInv σ) : LagInv (step false σ) := by
   | s1 id => exact lag_step_s1 h id hpc
   | s2 id => exact lag_step_s2 h id hpc
   | dEnd id => exact lag_step_dEnd h id hpc
+  | l2 fin => exact lag_step_l2 h fin hpc
+  | l3 fin tts => exact lag_step_l3 h fin tts hpc
+  | l4 fin => exact lag_step_l4 h fin hpc
+  | l5 fin => exact lag_step_l5 h fin hpc
 
 end PPLV.Watchdog
